@@ -43,6 +43,7 @@ def run(an: Analysis, rep):
     rep.run(r072, an, rep, enc, cdec, defs)
     rep.run(r073, an, rep, enc)
     rep.run(r074, an, rep)
+    rep.run(r07a, an, rep, enc)
     rep.run(r075, an, rep, enc, cdec)
     rep.run(r076, an, rep, enc, defs)
     rep.run(r077, an, rep, enc)
@@ -700,6 +701,63 @@ def r074(an, rep):
             else:
                 why = f"default {d!r}"
             rep.add("R07.4", f"{ci.qual}.{f.name}", ok, loc(ci.module, f.node), why, nontrivial=not isinstance(d, type(None)))
+
+
+def r07a(an, rep, enc: FunctionInfo, rule="R07.4"):
+    """The predicate by which the encoder leaves a field out of the document ("is at its default") evaluated on witness (default, value)
+    pairs: it must hold exactly when the value equals the declared default - a falsy value that is not the default ('' for a docstring,
+    0 for a position) must be written, or it is decoded as the default."""
+    from sa.feval import BlockOutcome, FevalError, Obj, ObjEval
+    helpers = []
+    for c in ast.walk(enc.node):
+        if isinstance(c, ast.Call) and isinstance(c.func, ast.Name) and len(c.args) == 2:
+            r = an.prog.resolve_global(enc.module, c.func.id, enc)
+            if r and r[0] == "func" and any(isinstance(x, ast.Attribute) and x.attr in ("default", "default_factory") for x in ast.walk(r[1].node)):
+                helpers.append((c, r[1]))
+    if not helpers:
+        if any(isinstance(x, ast.Attribute) and x.attr in ("default", "default_factory") for x in ast.walk(enc.node)):
+            raise AnalysisError(f"{enc.qual}: fields are left out by an inline test on their defaults: the predicate is not evaluated")
+        rep.add(rule, f"{enc.qual}::fields at their default are recognised by equality", True, loc(enc.module, enc.node), "the encoder writes every field", nontrivial=False)
+        return
+    call, h = helpers[0]
+    MISSING = type("MISSING", (), {"__repr__": lambda self: "MISSING"})()
+
+    def resolve(name):
+        r = an.prog.resolve_global(h.module, name, h)
+        if r and r[0] == "func":
+            return r[1].node
+        return None
+    # (default, default_factory, value, hidden?)
+    W = [(None, MISSING, None, True), (None, MISSING, 0, False), (None, MISSING, "", False), (None, MISSING, False, False), (None, MISSING, (), False), (None, MISSING, 5, False),
+         ((), MISSING, (), True), ((), MISSING, (1,), False), (False, MISSING, False, True), (False, MISSING, True, False), (False, MISSING, None, False),
+         (0, MISSING, 0, True), (0, MISSING, None, False), (0, MISSING, 3, False), (MISSING, tuple, (), True), (MISSING, tuple, (None,), False), (MISSING, MISSING, None, False), (MISSING, MISSING, 0, False),
+         ("x", MISSING, "x", True), ("x", MISSING, "", False)]
+    params = h.params
+    if len(params) != 2:
+        raise AnalysisError(f"{h.qual}: expected (field, instance)")
+    # which argument is the field?  the one whose .default is read
+    fpar = next((x.value.id for x in ast.walk(h.node) if isinstance(x, ast.Attribute) and x.attr in ("default", "default_factory") and isinstance(x.value, ast.Name) and x.value.id in params), None)
+    if fpar is None:
+        raise AnalysisError(f"{h.qual}: which parameter is the dataclass field is not recognised")
+    bad = []
+    for d, df, v, want in W:
+        ev = ObjEval(resolve, extra={"MISSING": MISSING, "getattr": lambda o, n, *dflt: o[n] if n in o or not dflt else dflt[0], "dataclasses": {"MISSING": MISSING}})
+        ev.module_assigns = h.module.assigns
+        fobj = Obj({"name": "fld", "default": d, "default_factory": df})
+        inst = Obj({"fld": v})
+        try:
+            got = ev.call_method(h.node, *([fobj, inst] if params[0] == fpar else [inst, fobj]))
+        except BlockOutcome as o:
+            raise AnalysisError(f"{h.qual}: raises on a witness field ({norm_src(o.node)[:50]})")
+        except (FevalError, KeyError, TypeError) as e:
+            raise AnalysisError(f"{h.qual}: not evaluable on witness fields ({e})")
+        if bool(got) != want:
+            dd = f"default_factory={df.__name__}" if df is not MISSING else (f"default={d!r}" if d is not MISSING else "no default")
+            bad.append(f"field with {dd} holding {v!r}: {h.name} says {'default' if got else 'not default'}")
+    rep.add(rule, f"{h.qual}::a field is left out exactly when it equals its default", not bad, loc(h.module, h.node),
+            f"{len(W)} witness (default, value) pairs: hidden iff value == default" if not bad else
+            f"{bad[0]} - the encoder leaves the field out, the decoder fills in the default, and the value is lost (a function whose docstring is the empty string loads back with "
+            f"docstring None; a position override 0 loads back as 'no override'); {len(bad)} of {len(W)} witness pairs wrong")
 
 
 # ----------------------------------------------------------------------------- R07.5
